@@ -4,8 +4,10 @@ import json, os, sys
 sys.path.insert(0, os.path.dirname(os.path.abspath(__file__)))
 VERIF = os.path.dirname(os.path.dirname(os.path.abspath(__file__)))
 
-BASELINE_OFF = ("cd /repo && GOFLAGS=-mod=mod GOPROXY=off go build ./... && "
-                "GOFLAGS=-mod=mod GOPROXY=off go test -vet=off -count=1 -timeout 25m ./...")
+# prints the suite's `go test -json` events (guard off) and ends with tools/baseline.sh, whose exit status says whether every test of
+# BASELINE.json's stable_pass passed (three network-dependent tests fail in this offline sandbox on the untouched tree as well)
+BASELINE_OFF = ("cd /repo && export GOFLAGS=-mod=mod GOPROXY=off && go build ./... && "
+                "(go test -json -vet=off -count=1 -timeout 25m ./... ; true) && sh /verif/tools/baseline.sh")
 
 OP_NOTE = ("Trusted: TLC; the harness store (harness/modelstore) as an implementation of the documented storage contract; the "
            "projection of HTTP responses to abstract outcomes (harness/opdrv). Bounds: design cfgs under spec/OPDesign_*.cfg; "
